@@ -31,7 +31,8 @@ ASSUMPTIONS = ["configurations whose truth is a matter of convention (parts touc
 def plan(tier):
     return {"shards": 8 if tier == "quick" else 16, "budget_s": 30 if tier == "quick" else 420,
             "required_counters": ["meshes_checked", "status_checks", "orientation_checks", "field_checks",
-                                  "tetra_exhaustive_cases", "kind:torus", "kind:interpenetrating", "kind:spike", "kind:open"],
+                                  "tetra_exhaustive_cases", "kind:torus", "kind:interpenetrating", "kind:spike", "kind:open",
+                                  "kind:small_parts", "kind:flat_bipyramid"],
             "exhaustive": "tetrahedron: all 24 face orders x 16 winding subsets x 24 vertex renumberings (thorough, "
                           "when counter tetra_slices_completed == shards; quick: a 1/8 stride)"}
 
@@ -73,6 +74,26 @@ def base_mesh(rng, kind, thin):
         V, F = M.union([A, (VB, FB)])
         truth["disconnected"] = True
         truth["selfintersecting"] = True
+    elif kind == "small_parts":
+        # two small interpenetrating boxes (edge s of the whole extent) and a distant large part: the parts that
+        # intersect are small compared with the mesh
+        sz = float(rng.choice([0.05, 0.02, 0.01, 0.005]))
+        A = M.box((sz, sz, sz))
+        B = M.box((sz, sz, sz), c=(0.45 * sz, 0.3 * sz, 0.25 * sz))
+        C = M.box((1, 1, 1), c=(3.0, 0.4, 0.2))
+        V, F = M.union([A, B, C])
+        truth["disconnected"] = True
+        truth["selfintersecting"] = True
+    elif kind == "flat_bipyramid":
+        # flat lens-like convex body whose facets are all oblique (none lies in a face of the bounding box)
+        n = int(rng.integers(3, 8))
+        a = np.sort(rng.uniform(0, 2 * np.pi, n)) if rng.random() < 0.5 else np.arange(n) * 2 * np.pi / n
+        if np.max(np.diff(np.r_[a, a[0] + 2 * np.pi])) > 0.9 * np.pi:
+            a = np.arange(n) * 2 * np.pi / n
+        ring = np.c_[np.cos(a), np.sin(a), np.zeros(n)] * 0.5
+        V = np.r_[ring, [[0, 0, thin / 2], [0, 0, -thin / 2]]]
+        F = np.array([[i, (i + 1) % n, n] for i in range(n)] + [[(i + 1) % n, i, n + 1] for i in range(n)])
+        F = M.orient_outward_convex(V, F)
     elif kind == "open":
         V, F = M.convex_hull(rng) if rng.random() < 0.5 else M.extrude(M.SHAPES["L"])
         k = int(rng.integers(1, 3))
@@ -83,7 +104,8 @@ def base_mesh(rng, kind, thin):
     return V, F, truth
 
 
-KINDS = ["hull", "box", "prism", "L", "U", "T", "star", "torus", "plate", "two_parts", "interpenetrating", "spike", "open"]
+KINDS = ["hull", "box", "prism", "L", "U", "T", "star", "torus", "plate", "two_parts", "interpenetrating", "spike", "open",
+         "small_parts", "flat_bipyramid"]
 
 
 def build(V, F, **kw):
@@ -154,7 +176,7 @@ def check_mesh(ctx, case, V, F, truth, canonical):
 def run_random(ctx, rng):
     kind = KINDS[int(rng.integers(0, len(KINDS)))]
     lo = -3 if ctx.tier == "quick" else -6
-    thin = float(10 ** rng.uniform(lo, -1)) if kind == "plate" else 1.0
+    thin = float(10 ** rng.uniform(lo, -1)) if kind in ("plate", "flat_bipyramid") else 1.0
     seed = int(rng.integers(0, 2**31))
     r2 = np.random.default_rng(seed)
     V0, F0, truth = base_mesh(r2, kind, thin)
